@@ -19,6 +19,7 @@ import (
 
 type verifC13Case struct {
 	ID   int               `json:"id"`
+	Seed int64             `json:"seed"`
 	Kind string            `json:"kind"`
 	Set  []string          `json:"set"`
 	Sub  int               `json:"sub"`
@@ -80,7 +81,22 @@ func TestVerifC13(t *testing.T) {
 	defer w.Flush()
 
 	for _, cs := range cases {
-		rand.Seed(int64(cs.ID)*7919 + 17)
+		func() {
+			defer func() {
+				if r := recover(); r != nil {
+					b, _ := json.Marshal(map[string]any{"id": cs.ID, "panic": fmt.Sprint(r)})
+					w.Write(b)
+					w.WriteByte('\n')
+				}
+			}()
+			verifC13Run(t, cs, w)
+		}()
+	}
+}
+
+func verifC13Run(t *testing.T, cs verifC13Case, w *bufio.Writer) {
+	{
+		rand.Seed(cs.Seed)
 		res := map[string]any{"id": cs.ID, "subsetSize": subsetSize}
 		switch cs.Kind {
 		case "subset":
